@@ -240,6 +240,9 @@ func (r *Run) Guard(fnName, cond, why string, opts ...GuardOpt) *Guard {
 						}
 					}
 					if okBefore {
+						if len(r.P.FindCalls(gfn, b, false)) == 0 && gfn == fn && r.newHelperCalls(fn, b, g) {
+							continue // the effect now lives in a new helper whose call the guard precedes
+						}
 						if len(r.P.FindCalls(gfn, b, false)) == 0 && gfn == fn {
 							r.viol("K2-guard-dominates", fnName, "reject-if "+cond+" before "+b, "the effect "+b+" that the guard must precede is not called in "+fnName+" (anchor unresolved)", why, file, line)
 							okBefore = false
@@ -1188,4 +1191,30 @@ func dataConjunctKey(full string) string {
 	}
 	sort.Strings(parts)
 	return strings.Join(parts, " && ")
+}
+
+// newHelperCalls: fn calls a helper that is new relative to the reviewed tree, the helper performs
+// a call matching m, and the guard's accepting edge dominates every such helper call.
+func (r *Run) newHelperCalls(fn *ssa.Function, m string, g *Guard) bool {
+	if knownFuncs == nil {
+		return false
+	}
+	found := false
+	for _, cs := range r.P.Calls(fn, false) {
+		h := cs.Instr.Common().StaticCallee()
+		if h == nil || h.Blocks == nil {
+			continue
+		}
+		if n := r.P.FuncName(h); n == "" || knownFuncs[n] {
+			continue
+		}
+		if len(r.P.FindCalls(h, m, false)) == 0 {
+			continue
+		}
+		if !g.DominatesInContext(cs.Instr.Block()) {
+			return false
+		}
+		found = true
+	}
+	return found
 }
